@@ -1292,6 +1292,12 @@ func (h *fsHandler) pathToFilePath(path []byte, hasTrailingSlash bool) string {
 	return filepath.FromSlash(string(b.B))
 }
 
+// isRootFilePath reports whether filePath, as returned by pathToFilePath,
+// refers to the root directory itself.
+func (h *fsHandler) isRootFilePath(filePath string) bool {
+	return filePath == h.root || filePath == "" || filePath == "."
+}
+
 func (h *fsHandler) filePathToCompressed(filePath string) string {
 	if h.root == h.compressRoot {
 		return filePath
@@ -1363,9 +1369,13 @@ func (h *fsHandler) handleRequest(ctx *RequestCtx) {
 	if !ok {
 		filePath := h.pathToFilePath(path, hasTrailingSlash)
 
+		// The root itself is never looked up with a compressed file suffix:
+		// "<root>.fasthttp.gz" is a sibling of the root, i.e. a file outside of it.
+		compressFile := mustCompress && !h.isRootFilePath(filePath)
+
 		var err error
-		ff, err = h.openFSFile(filePath, mustCompress, fileEncoding)
-		if mustCompress && err == errNoCreatePermission {
+		ff, err = h.openFSFile(filePath, compressFile, fileEncoding)
+		if compressFile && err == errNoCreatePermission {
 			ctx.Logger().Printf("insufficient permissions for saving compressed file for %q. Serving uncompressed file. "+
 				"Allow write access to the directory with this file in order to improve fasthttp performance", filePath)
 			mustCompress = false
